@@ -623,6 +623,7 @@ def oracle_c12(world, result):
     P["freeze_NT_subtree"] = int(any(f["mode"] == "NT" for f in result["freeze_applied"]))
     P["freeze_fn_leaves"] = int(any(f["mode"] == "fn" for f in result["freeze_applied"]))
     P["sig_frozen"] = P["has_frozen"]
+    P["prelude_sibling_trained"] = int(result.get("prelude_train") == "ok")
     # 1. structure and bit-identity after the run -------------------------------------------
     l0, t0 = jax.tree_util.tree_flatten_with_path(m0)
     l1, t1 = jax.tree_util.tree_flatten_with_path(rm)
@@ -821,7 +822,25 @@ def oracle_c11(world, result):
     for k in seen_keys:
         P["sig_" + k] = 1
     P["teleport_fired"] = int(any(s["fault"] == E.F_TELEPORT for s in result["steps"]))
+    _rejection_clause(world, result, V, P)
     return V, P, "strict"
+
+
+def _rejection_clause(world, result, V, P):
+    """Invalid constructor arguments are rejected with an error whatever happened earlier in the
+    process (failed constructions, rejected arguments, a fault-injected training run)."""
+    rej = result.get("rejections")
+    if rej is None:
+        return
+    done = result.get("history_done") or []
+    P["rejection_panel_items"] = len(rej)
+    P["history_ops"] = len(done)
+    P["history_failed_calls"] = sum(1 for d in done if d[2].startswith("raised"))
+    acc = sorted(n for n, s in rej.items() if s == "accepted")
+    if acc:
+        V.append({"clause": "c11.invalid_argument_accepted",
+                  "detail": f"after the process history {[d[:2] for d in done]} and the training run, these invalid constructor arguments "
+                            f"were accepted without an error: {acc}"})
 
 
 # =========================================================================== C09
